@@ -372,3 +372,57 @@ def step_dup(cls_name, mask, n1, n2, rep, rk=0):
         elif now is not originals[name]:
             problems.append('slot of %s was changed although another node was replaced (equal siblings)' % name)
     return problems
+
+
+# ---- leaves: node kinds without node children are visited once, as themselves, and nothing inside them is walked ---------------------------
+def leaf_instances():
+    import datetime as dt
+    out = {'Constant': [A.Constant(1), A.Constant('s'), A.Constant(None), A.Constant(dt.date(2020, 1, 2))], 'NullConstant': [A.NullConstant()], 'Last': [A.Last()], 'Star': [A.Star()],
+           'Identifier': [A.Identifier(parts=['a', 'b']), A.Identifier(parts=['t', A.Star()])], 'Parameter': [A.Parameter('?')], 'Latest': [A.Latest()],
+           'Interval': [A.Interval('2 day'), A.Interval('3 month'), A.Interval('x')], 'Variable': [A.Variable('v'), A.Variable('s', is_system_var=True)]}
+    for name, mk in (('Data', lambda: A.Data([{'a': 1}, {'a': 2}])), ('NativeQuery', lambda: A.NativeQuery(integration=A.Identifier('int1'), query='select 1')),
+                     ('Object', lambda: A.Object('T', {'a': 1}))):
+        try:
+            out[name] = [mk()]
+        except Exception:  # noqa
+            pass
+    return out
+
+
+def leaf_steps():
+    """-> (number of walks, problems): each leaf instance in four parent positions (operand, function argument, tuple item, select-list item)"""
+    from mindsdb_sql.planner.utils import query_traversal
+    from mindsdb_sql.parser.ast.base import ASTNode
+    problems, n = [], 0
+    for cls, insts in sorted(leaf_instances().items()):
+        for leaf in insts:
+            for pname, mk in (('operand', lambda x: A.BinaryOperation('=', args=[A.Identifier('m0'), x])), ('function-argument', lambda x: A.Function('f', args=[x, A.Identifier('m0')])),
+                              ('tuple-item', lambda x: A.Tuple([x, A.Identifier('m0')])), ('select-list', lambda x: A.Select(targets=[x, A.Identifier('m0')], from_table=A.Identifier('t0')))):
+                import copy as _cp
+                lf = _cp.deepcopy(leaf)
+                try:
+                    root = mk(lf)
+                except Exception:  # noqa
+                    continue
+                if isinstance(lf, (A.Data, A.NativeQuery)) and pname != 'select-list':
+                    continue
+                seen = []
+
+                def cb(node, **kw):
+                    seen.append(node)
+                n += 1
+                try:
+                    query_traversal(root, cb)
+                except Exception as e:  # noqa
+                    problems.append('%s as %s: the walk raises %s' % (cls, pname, type(e).__name__))
+                    continue
+                non_nodes = [x for x in seen if not isinstance(x, ASTNode)]
+                if non_nodes:
+                    problems.append('%s as %s: the visitor is called with %r, which is not a node of the statement' % (cls, pname, non_nodes[0]))
+                k = sum(1 for x in seen if x is lf)
+                if k != 1:
+                    problems.append('%s as %s: visited %d times' % (cls, pname, k))
+                inner = [x for x in seen if isinstance(x, ASTNode) and x is not lf and x is not root and not (isinstance(x, A.Identifier) and x.parts in (['m0'], ['t0']))]
+                if inner and not isinstance(lf, A.Identifier):
+                    problems.append('%s as %s: something inside the leaf is visited: %r' % (cls, pname, inner[0]))
+    return n, problems
